@@ -336,6 +336,17 @@ impl Workload {
             .get(&FeWorkIdentifier::Glyph(glyph_name.clone()));
         let be_id = AnyWorkId::Be(BeWorkIdentifier::GlyfFragment(glyph_name));
 
+        // Glyph order counts the IR glyphs as done before we have heard about all of them
+        // (counters drop before completion messages arrive), so by now it may already be at
+        // work, or finished. It rewrites glyphs that have components, possibly into ones that
+        // have none, so what we just read may not be what IR originally said: only a glyph
+        // read before glyph order started is known to be left alone if it has no components.
+        let glyph_order_started = self
+            .jobs_pending
+            .get(&AnyWorkId::Fe(FeWorkIdentifier::GlyphOrder))
+            .map(|job| job.running)
+            .unwrap_or(true);
+
         // If the inputs to the BE glyph didn't change it won't be pending
         let Some(be_job) = self.jobs_pending.get_mut(&be_id) else {
             return;
@@ -364,7 +375,7 @@ impl Workload {
         }
 
         // We don't *have* to wait on glyph order, but if we don't it delays the critical path
-        if has_components {
+        if has_components || glyph_order_started {
             deps = deps.variant(FeWorkIdentifier::GlyphOrder);
         }
 
